@@ -605,7 +605,7 @@ Definition conv_at (S : net) : Prop :=
        b1 (rrib ri) d = m /\
        (i = d -> n1 (rrib ri) d = i) /\
        (i <> d -> E i (n1 (rrib ri) d) /\ isdist g (n1 (rrib ri) d) d (m - 1) /\
-                  forall h, E i h -> isdist g h d (m - 1) -> n1 (rrib ri) d <= h)) /\
+                  forall h, E i h -> isdist g h d (m - 1) -> (tie_key (n1 (rrib ri) d) <= tie_key h)%Z)) /\
     ((forall m, isdist g i d m -> INF <= m) -> aget d (rrib ri) = None).
 
 Lemma converged_state : forall k S, I2 S -> UB k S -> dist_bound k -> conv_at S.
